@@ -182,13 +182,15 @@ def reach_all(dist_row):
 @st.composite
 def sp_graphs(draw, max_n=30):
     size = draw(st.sampled_from(["tiny", "small", "small", "medium", "large"]))
-    n = draw({"tiny": st.integers(2, 4), "small": st.integers(3, 8), "medium": st.integers(6, 14),
+    n = draw({"tiny": st.integers(1, 4), "small": st.integers(3, 8), "medium": st.integers(6, 14),
               "large": st.integers(min(12, max_n), max_n)}[size])
     types = "".join(draw(st.lists(st.sampled_from("hhhr"), min_size=n, max_size=n)))
     order = draw(st.permutations(list(range(n))))
     cls = draw(st.sampled_from(["cycle", "tree-sym", "tree-sym", "mixed", "weak", "weak"]))
     perm = draw(st.permutations(list(range(n))))
     nlinks = draw(st.integers(1, min(3 * n, 40)))
+    if n == 1:
+        cls = "single-node"
     sd_share = draw(st.sampled_from([0, 0, 1, 3]))
     links = []
     for _ in range(nlinks):
@@ -279,3 +281,1566 @@ def sp_platform(g, kinds=("full",) + tuple(SP_KINDS), queries=None):
             pairs.append(["%sn%d" % (PREFIX[k], s), "%sn%d" % (PREFIX[k], d)])
             meta.append((k, s, d))
     return {"zones": zones, "pairs": pairs}, meta
+
+
+# =============================================================================================
+# C26: structured topologies.  A *topo* is
+#   {"kind": "torus", "dims": [..]} | {"kind": "fattree", "ft": [levels, [down], [up], [count]]}
+#   | {"kind": "dragonfly", "df": [[groups, blue], [chassis, black], [routers, green], nodes]}
+#   + {"policy": 1 shared | 2 splitduplex | 0 fatpipe, "lat_k": k, "loopback": bool, "lb_lat_k": k, "limiter": bool,
+#      "pairs": [[src leaf, dst leaf], ...]}
+#   | {"kind": "star", "members": [{"type": "h"|"r", "up": [[link, dir]..]|None, "down": [...]|None, "sym": bool,
+#                                    "loop": [[link, dir]..]|None}], "links": [[lat_k, policy]...], "pairs": [...]}
+# Leaves of the cluster zones are hosts "<zone>-<id>" created in leaf order, so netpoint id == leaf index.
+import re
+
+RE_TORUS = re.compile(r"^(.*)_link_from_(\d+)_to_(\d+)(_UP|_DOWN)?$")
+RE_FT = re.compile(r"^link_from_(-?\d+)_(-?\d+)_(\d+)(_UP|_DOWN)?$")
+RE_LOCAL = re.compile(r"^local_link_from_router_(\d+)_to_node_(\d+)_(\d+)(_UP|_DOWN)?$")
+RE_GREEN = re.compile(r"^green_link_in_chassis_(\d+)_between_routers_(\d+)_and_(\d+)_(\d+)(_UP|_DOWN)?$")
+RE_BLACK = re.compile(r"^black_link_in_group_(\d+)_between_chassis_(\d+)_and_(\d+)_blade_(\d+)_(\d+)(_UP|_DOWN)?$")
+RE_BLUE = re.compile(r"^blue_link_between_group_(\d+)_and_(\d+)_routers_(\d+)_and_(\d+)_(\d+)(_UP|_DOWN)?$")
+RE_LIM = re.compile(r"^(.*)-lim(\d+)c((?:_\d+)+)$")
+RE_LB = re.compile(r"^(.*)-lb(\d+)$")
+
+
+def prod(xs):
+    r = 1
+    for x in xs:
+        r *= x
+    return r
+
+
+def topo_leaves(t):
+    if t["kind"] == "torus":
+        return prod(t["dims"])
+    if t["kind"] == "fattree":
+        return prod(t["ft"][1])
+    if t["kind"] == "dragonfly":
+        df = t["df"]
+        return df[0][0] * df[1][0] * df[2][0] * df[3]
+    return len(t["members"])
+
+
+def topo_zone(t, name):
+    """Zone description for the driver."""
+    if t["kind"] == "star":
+        members = []
+        routes = []
+        for i, m in enumerate(t["members"]):
+            nm = "%s-%d" % (name, i)
+            members.append([m["type"], nm])
+
+            def ll(ls):
+                return [["%s-l%d" % (name, li), di] for li, di in ls]
+            if m.get("up") is not None:
+                routes.append({"src": nm, "dst": None, "links": ll(m["up"]), "sym": bool(m.get("sym"))})
+            if m.get("down") is not None and not m.get("sym"):
+                routes.append({"src": None, "dst": nm, "links": ll(m["down"]), "sym": False})
+            if m.get("loop"):
+                routes.append({"src": nm, "dst": nm, "links": ll(m["loop"]), "sym": False})
+        if t.get("route_order"):
+            routes = [routes[i] for i in t["route_order"] if i < len(routes)] + \
+                     [r for i, r in enumerate(routes) if i not in t["route_order"]]
+        links = [{"name": "%s-l%d" % (name, i), "lat": lat_of(k), "policy": p} for i, (k, p) in enumerate(t["links"])]
+        return {"name": name, "kind": "star", "members": members, "links": links, "routes": routes}
+    z = {"name": name, "kind": t["kind"], "lat": lat_of(t.get("lat_k", 0)), "policy": t.get("policy", 2),
+         "loopback": bool(t.get("loopback")), "lb_lat": lat_of(t.get("lb_lat_k", 0)), "limiter": bool(t.get("limiter"))}
+    for k in ("dims", "ft", "df"):
+        if k in t:
+            z[k] = t[k]
+    return z
+
+
+class Bad(Exception):
+    def __init__(self, sig, msg):
+        Exception.__init__(self, msg)
+        self.sig = sig
+
+
+def split_sd(name):
+    """-> (base name, 'UP'|'DOWN'|None)"""
+    if name.endswith("_UP"):
+        return name[:-3], "UP"
+    if name.endswith("_DOWN"):
+        return name[:-5], "DOWN"
+    return name, None
+
+
+class Walk:
+    """Accumulates what a decoded route tells: visited nodes (for the limiter count), topology links with the direction
+    in which they were traversed (for the split-duplex consistency check)."""
+
+    def __init__(self):
+        self.visits = []       # node keys in visiting order
+        self.hops = []         # (base link name, half, from node key, to node key)
+        self.limiters = []     # node keys whose limiter was found in the route
+        self.loopbacks = []
+
+
+def strip_special(zname, links, limiter_key):
+    """Separates limiter / loopback links (created by our callbacks, named after the element) from topology links."""
+    topo, lims, lbs = [], [], []
+    for l in links:
+        m = RE_LIM.match(l)
+        if m and m.group(1) == zname:
+            coords = tuple(int(x) for x in m.group(3).split("_")[1:])
+            lims.append(limiter_key(int(m.group(2)), coords))
+            continue
+        m = RE_LB.match(l)
+        if m and m.group(1) == zname:
+            lbs.append(int(m.group(2)))
+            continue
+        topo.append(l)
+    return topo, lims, lbs
+
+
+# ---- torus
+
+def torus_coords(dims, i):
+    """Coordinates of leaf i: dimension 0 varies fastest (this is what the link names generated by the zone encode:
+    leaf i is linked to leaf i+1 in dimension 0)."""
+    c = []
+    for d in dims:
+        c.append(i % d)
+        i //= d
+    return c
+
+
+def check_torus(t, zname, s, d, links):
+    dims = t["dims"]
+    n = prod(dims)
+    topo, lims, lbs = strip_special(zname, links, lambda i, c: i)
+    w = Walk()
+    w.limiters = lims
+    w.loopbacks = lbs
+    if s == d and t.get("loopback"):
+        if topo or lbs != [s] or lims:
+            raise Bad("torus:loopback", "route of leaf %d to itself with a configured loopback is %s, expected only its loopback link" % (s, links))
+        return w
+    if lbs:
+        raise Bad("torus:loopback", "loopback link in the route %d -> %d: %s" % (s, d, links))
+    cur = s
+    w.visits.append(cur)
+    moves = []       # (dimension, +1|-1)
+    for l in topo:
+        m = RE_TORUS.match(l)
+        if not m or m.group(1) != zname:
+            raise Bad("torus:foreign-link", "link %s in route %d -> %d is not a link of the torus" % (l, s, d))
+        a, b = int(m.group(2)), int(m.group(3))
+        if a == cur:
+            nxt = b
+        elif b == cur:
+            nxt = a
+        else:
+            raise Bad("torus:not-a-walk", "route %d -> %d: link %s does not touch the current node %d (route %s)" % (s, d, l, cur, links))
+        if a == b:
+            raise Bad("torus:not-a-walk", "route %d -> %d uses the self link %s of a dimension of size 1" % (s, d, l))
+        ca, cb = torus_coords(dims, cur), torus_coords(dims, nxt)
+        diff = [j for j in range(len(dims)) if ca[j] != cb[j]]
+        if len(diff) != 1:
+            raise Bad("torus:not-a-walk", "link %s joins %s and %s which are not neighbours" % (l, ca, cb))
+        j = diff[0]
+        step = (cb[j] - ca[j]) % dims[j]
+        if step == 1 and a == cur:
+            sgn = +1
+        elif step == dims[j] - 1 and b == cur:
+            sgn = -1
+        elif dims[j] == 2:
+            sgn = +1 if a == cur else -1
+        else:
+            raise Bad("torus:not-a-walk", "link %s joins %s and %s which are not neighbours" % (l, ca, cb))
+        base, half = split_sd(l)
+        w.hops.append((base, half, cur, nxt))
+        moves.append((j, sgn))
+        cur = nxt
+        w.visits.append(cur)
+    if cur != d:
+        raise Bad("torus:wrong-destination", "route %d -> %d ends at leaf %d: %s" % (s, d, cur, links))
+    # dimension by dimension, one direction per dimension, the shorter way round
+    cs, cd = torus_coords(dims, s), torus_coords(dims, d)
+    seen = []
+    for j, sgn in moves:
+        if not seen or seen[-1][0] != j:
+            if any(x[0] == j for x in seen):
+                raise Bad("torus:dimension-order", "route %d -> %d comes back to dimension %d after leaving it: moves %s" % (s, d, j, moves))
+            seen.append([j, sgn, 1])
+        else:
+            if seen[-1][1] != sgn:
+                raise Bad("torus:direction", "route %d -> %d goes both ways in dimension %d: moves %s" % (s, d, j, moves))
+            seen[-1][2] += 1
+    for j in range(len(dims)):
+        delta = (cd[j] - cs[j]) % dims[j]
+        best = min(delta, dims[j] - delta)
+        got = [x for x in seen if x[0] == j]
+        cnt = got[0][2] if got else 0
+        if cnt != best:
+            raise Bad("torus:not-shorter-way", "route %d -> %d (coords %s -> %s, dims %s) makes %d steps in dimension %d, the shorter way round is %d"
+                      % (s, d, cs, cd, dims, cnt, j, best))
+    return w
+
+
+# ---- fat tree
+
+class FatTree:
+    def __init__(self, ft):
+        self.h, self.m, self.w, self.p = ft[0], ft[1], ft[2], ft[3]
+        self.n = prod(self.m)
+        self.by_level = [self.n]
+        for i in range(self.h):
+            self.by_level.append(prod(self.w[:i + 1]) * prod(self.m[i + 1:]))
+        # ids given by the zone: leaves 0..n-1, then switches 2n-1, 2n-2, ... in (level, position) order
+        self.sw_id = {}
+        self.by_id = {}
+        k = 2 * self.n
+        for lvl in range(1, self.h + 1):
+            for pos in range(self.by_level[lvl]):
+                k -= 1
+                self.sw_id[(lvl, pos)] = k
+                self.by_id.setdefault(k, []).append((lvl, pos))
+
+    def label(self, lvl, pos):
+        lab = []
+        for i in range(self.h):
+            mx = self.w[i] if i < lvl else self.m[i]
+            lab.append(pos % mx)
+            pos //= mx
+        return lab
+
+    def node_id(self, lvl, pos):
+        return pos if lvl == 0 else self.sw_id[(lvl, pos)]
+
+    def find(self, lvl, ident):
+        """node of that level with that id, or None"""
+        if lvl == 0:
+            return (0, ident) if 0 <= ident < self.n else None
+        for (l, p) in self.by_id.get(ident, []):
+            if l == lvl:
+                return (l, p)
+        return None
+
+    def related(self, parent, child):
+        if parent[0] != child[0] + 1:
+            return False
+        lp, lc = self.label(*parent), self.label(*child)
+        return all(lp[i] == lc[i] or i + 1 == parent[0] for i in range(self.h))
+
+    def in_subtree(self, root, leafpos):
+        lr, ln = self.label(*root), self.label(0, leafpos)
+        return all(lr[i] == ln[i] for i in range(root[0], self.h))
+
+
+def check_fattree(t, zname, s, d, links, pos_offset=0):
+    ft = FatTree(t["ft"])
+    topo, lims, lbs = strip_special(zname, links, lambda i, c: (c[0], c[1]))
+    w = Walk()
+    w.limiters = lims
+    w.loopbacks = lbs
+    if s == d and t.get("loopback"):
+        if topo or lbs != [s] or lims:
+            raise Bad("fattree:loopback", "route of leaf %d to itself with a configured loopback is %s, expected only its loopback link" % (s, links))
+        return w
+    if lbs:
+        raise Bad("fattree:loopback", "loopback link in the route %d -> %d: %s" % (s, d, links))
+    cur = (0, s)
+    w.visits.append(cur)
+    phase = "up"
+    ups = []
+    top = None
+    for l in topo:
+        m = RE_FT.match(l)
+        if not m:
+            raise Bad("fattree:foreign-link", "link %s in route %d -> %d is not a link of the fat tree" % (l, s, d))
+        child, parent, uid = int(m.group(1)), int(m.group(2)), int(m.group(3))
+        base, half = split_sd(l)
+        nxt = None
+        if phase == "up" and child == ft.node_id(*cur) and cur[0] < ft.h:
+            cand = ft.find(cur[0] + 1, parent)
+            if cand and ft.related(cand, cur):
+                nxt = cand
+                ups.append((cur, cand, uid, l))
+        if nxt is None and parent == ft.node_id(*cur) and cur[0] >= 1:
+            cand = ft.find(cur[0] - 1, child)
+            if cand and ft.related(cur, cand):
+                nxt = cand
+                if phase == "up":
+                    top = cur
+                phase = "down"
+        if nxt is None:
+            raise Bad("fattree:not-a-walk", "route %d -> %d: link %s does not continue from node (level %d, position %d, id %d) in the %s phase: %s"
+                      % (s, d, l, cur[0], cur[1], ft.node_id(*cur), phase, links))
+        w.hops.append((base, half, cur, nxt))
+        cur = nxt
+        w.visits.append(cur)
+    if cur != (0, d):
+        raise Bad("fattree:wrong-destination", "route %d -> %d ends at node %s: %s" % (s, d, cur, links))
+    if top is None:
+        raise Bad("fattree:not-a-walk", "route %d -> %d never turns down: %s" % (s, d, links))
+    # nearest common ancestor: the lowest level whose switches have the destination below them
+    ls, ld = ft.label(0, s), ft.label(0, d)
+    differ = [i for i in range(ft.h) if ls[i] != ld[i]]
+    lvl = (max(differ) + 1) if differ else 1
+    if top[0] != lvl:
+        raise Bad("fattree:not-nearest-ancestor", "route %d -> %d (labels %s -> %s) climbs to level %d, the nearest common ancestor is at level %d: %s"
+                  % (s, d, ls, ld, top[0], lvl, links))
+    if len(topo) != 2 * lvl:
+        raise Bad("fattree:length", "route %d -> %d has %d tree links, expected %d" % (s, d, len(topo), 2 * lvl))
+    # documented up-port choice: destination-mod-k
+    D = d + pos_offset
+    for (c, par, uid, l) in ups:
+        x = D // prod(ft.w[:c[0]])
+        digit = ft.label(*par)[c[0]]
+        if digit != x % ft.w[c[0]]:
+            raise Bad("fattree:d-mod-k", "route %d -> %d: from node (level %d, position %d) the up link %s leads to the parent whose digit is %d, "
+                      "destination-mod-k selects parent %d" % (s, d, c[0], c[1], l, digit, x % ft.w[c[0]]))
+    return w
+
+
+# ---- dragonfly
+
+class Dragonfly:
+    def __init__(self, df, link_names):
+        (self.G, _), (self.C, _), (self.B, _), self.N = df[0], df[1], df[2], df[3]
+        # green links do not carry their group in their name: they are created group by group, chassis by chassis, so the
+        # rank of their unique id among the green links gives it
+        greens = []
+        for l in link_names:
+            base, half = split_sd(l)
+            m = RE_GREEN.match(base)
+            if m:
+                greens.append((int(m.group(4)), base))
+        greens = sorted(set(greens))
+        per_chassis = self.B * (self.B - 1) // 2
+        self.green_group = {}
+        for rank, (uid, base) in enumerate(greens):
+            self.green_group[base] = (rank // per_chassis) // self.C if per_chassis else 0
+
+    def router(self, g, c, b):
+        return (g * self.C + c) * self.B + b
+
+    def coords(self, leaf):
+        n = leaf % self.N
+        r = leaf // self.N
+        return (r // (self.C * self.B), (r // self.B) % self.C, r % self.B, n)
+
+    def rcoords(self, r):
+        return (r // (self.C * self.B), (r // self.B) % self.C, r % self.B)
+
+    def ends(self, base):
+        """router-to-router link -> (colour, router a, router b) with a < b in the zone's own orientation (a -> b is 'UP')"""
+        m = RE_GREEN.match(base)
+        if m:
+            c, j, k = int(m.group(1)), int(m.group(2)), int(m.group(3))
+            g = self.green_group[base]
+            return "green", self.router(g, c, j), self.router(g, c, k)
+        m = RE_BLACK.match(base)
+        if m:
+            g, j, k, b = int(m.group(1)), int(m.group(2)), int(m.group(3)), int(m.group(4))
+            return "black", self.router(g, j, b), self.router(g, k, b)
+        m = RE_BLUE.match(base)
+        if m:
+            return "blue", int(m.group(3)), int(m.group(4))
+        return None
+
+
+def check_dragonfly(t, zname, s, d, links, link_names):
+    df = Dragonfly(t["df"], link_names)
+    UMAX = 4294967295
+    topo, lims, lbs = strip_special(zname, links, lambda i, c: ("r",) + c[:3] if c[3] == UMAX else ("n", i))
+    w = Walk()
+    w.limiters = lims
+    w.loopbacks = lbs
+    if s == d and t.get("loopback"):
+        if topo or lbs != [s] or lims:
+            raise Bad("dragonfly:loopback", "route of leaf %d to itself with a configured loopback is %s, expected only its loopback link" % (s, links))
+        return w
+    if lbs:
+        raise Bad("dragonfly:loopback", "loopback link in the route %d -> %d: %s" % (s, d, links))
+    cs, cd = df.coords(s), df.coords(d)
+    if len(topo) < 2:
+        raise Bad("dragonfly:not-a-walk", "route %d -> %d has no local links: %s" % (s, d, links))
+    first, last = topo[0], topo[-1]
+    b0, h0 = split_sd(first)
+    m = RE_LOCAL.match(b0)
+    r_src = df.router(*cs[:3])
+    r_dst = df.router(*cd[:3])
+    if not m or int(m.group(1)) != r_src or int(m.group(2)) != cs[3]:
+        raise Bad("dragonfly:not-a-walk", "route %d -> %d %s does not start with the local link of node %s (router %d)" % (s, d, links, cs, r_src))
+    w.visits.append(("n", s))
+    w.hops.append((b0, h0, ("n", s), ("r",) + cs[:3]))
+    cur = r_src
+    w.visits.append(("r",) + df.rcoords(cur))
+    colours = []    # (colour, group in which / towards which)
+    for l in topo[1:-1]:
+        base, half = split_sd(l)
+        e = df.ends(base)
+        if e is None:
+            raise Bad("dragonfly:foreign-link", "link %s inside route %d -> %d is not a router-to-router link of the dragonfly" % (l, s, d))
+        col, a, b = e
+        if a == cur:
+            nxt = b
+        elif b == cur:
+            nxt = a
+        else:
+            raise Bad("dragonfly:not-a-walk", "route %d -> %d (%s -> %s): %s link %s joins routers %s and %s but the route is at router %s: %s"
+                      % (s, d, cs, cd, col, l, df.rcoords(a), df.rcoords(b), df.rcoords(cur), links))
+        w.hops.append((base, half, ("r",) + df.rcoords(cur), ("r",) + df.rcoords(nxt)))
+        colours.append((col, df.rcoords(cur), df.rcoords(nxt)))
+        cur = nxt
+        w.visits.append(("r",) + df.rcoords(cur))
+    b1, h1 = split_sd(last)
+    m = RE_LOCAL.match(b1)
+    if not m or int(m.group(1)) != r_dst or int(m.group(2)) != cd[3]:
+        raise Bad("dragonfly:not-a-walk", "route %d -> %d %s does not end with the local link of node %s (router %d)" % (s, d, links, cd, r_dst))
+    if cur != r_dst:
+        raise Bad("dragonfly:not-a-walk", "route %d -> %d (%s -> %s) reaches router %s before the last local link, the destination hangs off router %s: %s"
+                  % (s, d, cs, cd, df.rcoords(cur), df.rcoords(r_dst), links))
+    w.hops.append((b1, h1, ("r",) + cd[:3], ("n", d)))
+    w.visits.append(("n", d))
+    # hierarchy: exactly one blue link between different groups, none inside a group; inside each group at most one
+    # green move (only if the blades differ) and at most one black move (only if the chassis differ)
+    nblue = sum(1 for c in colours if c[0] == "blue")
+    if nblue != (1 if cs[0] != cd[0] else 0):
+        raise Bad("dragonfly:blue-count", "route %d -> %d (%s -> %s) uses %d blue links: %s" % (s, d, cs, cd, nblue, links))
+    segs = [[]]
+    for c in colours:
+        if c[0] == "blue":
+            segs.append([])
+        else:
+            segs[-1].append(c)
+    for seg in segs:
+        if not seg:
+            continue
+        a, b = seg[0][1], seg[-1][2]
+        need = sorted((["green"] if a[2] != b[2] else []) + (["black"] if a[1] != b[1] else []))
+        if sorted(x[0] for x in seg) != need:
+            raise Bad("dragonfly:not-minimal", "route %d -> %d (%s -> %s): inside group %d it goes from router %s to router %s with links %s, expected %s: %s"
+                      % (s, d, cs, cd, a[0], a, b, [x[0] for x in seg], need, links))
+    return w
+
+
+# ---- star
+
+def star_expected(t, zname, s, d):
+    ms = t["members"]
+
+    def conc(ls, back=False):
+        seq = reversed(ls) if back else ls
+        return [concrete("%s-l%d" % (zname, li), di, t["links"][li][1], back=back) for li, di in seq]
+
+    def up(m):
+        return conc(m["up"]) if m.get("up") is not None else []
+
+    def down(m):
+        if m.get("sym") and m.get("up") is not None:
+            return conc(m["up"], back=True)
+        return conc(m["down"]) if m.get("down") is not None else []
+    if s == d and ms[s].get("loop"):
+        seq = conc(ms[s]["loop"])
+    else:
+        seq = up(ms[s]) + down(ms[d])
+    res = []
+    for l in seq:
+        if l not in res:
+            res.append(l)
+    return res
+
+
+# ---- limiter / split-duplex bookkeeping shared by the three cluster kinds
+
+def check_limiters(t, w, s, d, links, kind):
+    """Limiter links: one per visit of a node (leaf or switch/router) iff configured, none otherwise."""
+    exp = sorted(map(repr, w.visits)) if t.get("limiter") else []
+    if s == d and t.get("loopback"):
+        exp = []
+    got = sorted(map(repr, w.limiters))
+    if got != exp:
+        raise Bad(kind + ":limiter", "route %d -> %d: limiter links of %s, the visited elements are %s (limiter configured: %s): %s"
+                  % (s, d, got, exp, bool(t.get("limiter")), links))
+
+
+@st.composite
+def topos(draw):
+    kind = draw(st.sampled_from(["torus", "torus", "fattree", "fattree", "dragonfly", "dragonfly", "star"]))  # noqa
+    t = {"kind": kind}
+    if kind == "torus":
+        nd = draw(st.sampled_from([1, 1, 2, 2, 2, 3, 3, 4, 5]))
+        dims = []
+        left = 64
+        for _ in range(nd):
+            hi = max(1, min(left, 9))
+            x = draw(st.sampled_from([v for v in [1, 2, 2, 3, 3, 4, 4, 5, 5, 6, 7, 8, 9] if v <= hi]))
+            if x == 1 and 1 in dims:      # two dimensions of size 1 make the zone create the link "from_i_to_i" twice
+                x = 2 if hi >= 2 else 1
+            if x == 1 and 1 in dims:
+                continue
+            dims.append(x)
+            left //= x
+        t["dims"] = dims
+    elif kind == "fattree":
+        h = draw(st.sampled_from([1, 2, 2, 3, 3]))
+        while True:
+            m = [draw(st.integers(1, 4)) for _ in range(h)]
+            w = [draw(st.sampled_from([1, 1, 2, 2, 3])) for _ in range(h)]
+            p = [draw(st.sampled_from([1, 1, 1, 2, 3])) for _ in range(h)]
+            ft = FatTree([h, m, w, p])
+            if ft.n <= 64 and sum(ft.by_level) <= 160:
+                break
+            m = [min(x, 2) for x in m]
+            w = [min(x, 2) for x in w]
+            ft = FatTree([h, m, w, p])
+            if ft.n <= 64 and sum(ft.by_level) <= 160:
+                break
+        t["ft"] = [h, m, w, p]
+    elif kind == "dragonfly":
+        B = draw(st.integers(1, 3))
+        G = draw(st.integers(1, B))      # documented limitation: groups <= routers per chassis
+        C = draw(st.integers(1, 3))
+        N = draw(st.integers(1, 3))
+        t["df"] = [[G, draw(st.integers(1, 3))], [C, draw(st.integers(1, 3))], [B, draw(st.integers(1, 3))], N]
+    else:
+        n = draw(st.integers(1, 8))
+        nl = draw(st.integers(1, 2 * n + 2))
+        links = [[draw(st.sampled_from([0, 1, 2, 8, 1024])), draw(st.sampled_from([0, 1, 1, 2]))] for _ in range(nl)]
+
+        def lst(lo, hi):
+            res = []
+            for _ in range(draw(st.integers(lo, hi))):
+                li = draw(st.integers(0, nl - 1))
+                res.append([li, draw(st.sampled_from([1, 2])) if links[li][1] == 2 else 0])
+            return res
+        members = []
+        for i in range(n):
+            conf = draw(st.sampled_from(["none", "updown", "updown", "sym", "sym"]))
+            m = {"type": draw(st.sampled_from("hhhr")), "up": None, "down": None, "sym": False, "loop": None}
+            if conf == "updown":
+                m["up"] = lst(0, 4)
+                m["down"] = lst(0, 4)
+            elif conf == "sym":
+                m["up"] = lst(0, 4)
+                m["sym"] = True
+            # a member with a loopback route only is refused by StarZone ("no link UP from source node")
+            if conf != "none" and draw(st.integers(0, 2)) == 0:
+                m["loop"] = lst(1, 3)
+            members.append(m)
+        t["members"] = members
+        t["links"] = links
+    if kind != "star":
+        t["policy"] = draw(st.sampled_from([2, 2, 1, 0]))
+        t["lat_k"] = draw(st.sampled_from([0, 1, 3, 1024]))
+        t["loopback"] = draw(st.booleans())
+        t["lb_lat_k"] = draw(st.sampled_from([0, 2]))
+        t["limiter"] = draw(st.booleans())
+    n = topo_leaves(t)
+    if n <= 9:
+        pairs = [[a, b] for a in range(n) for b in range(n)]
+    else:
+        pairs = draw(st.lists(st.tuples(st.integers(0, n - 1), st.integers(0, n - 1)).map(list), min_size=10, max_size=90))
+    t["pairs"] = pairs
+    return t
+
+
+# =============================================================================================
+# C24: hierarchical platforms.  The case IS the description given to route_driver (zones / links / routes of the root zone
+# "_world_" + "pairs"), cluster zones use {"leaf": null | template}.  The reference resolver below is written from the
+# documentation (Platform_routing.rst, "Calculating network paths"): common ancestor, route declared there between the two
+# child zones, recursion towards the gateways on both sides; local routes per zone kind as documented.
+
+class NoRoute(Exception):
+    pass
+
+
+class Z:
+    """One zone of the description (cluster leaves expanded)."""
+
+    def __init__(self, name, kind, parent):
+        self.name, self.kind, self.parent = name, kind, parent
+        self.members = []        # (type, name) in creation order
+        self.links = {}          # declared name -> (lat, policy)
+        self.routes = []         # dicts with concrete names: src, dst, gw_src, gw_dst, links [[name, dir]], sym
+        self.bypass = []
+        self.gateway = None      # default gateway name
+        self.cluster = None      # topo dict (kind/dims/ft/df/policy/loopback/limiter) for cluster kinds
+        self.leaves = []         # cluster: leaf netpoint names in leaf order
+        self.router = None       # cluster: name of the extra router
+        self.ap = None
+        self.coords = {}         # vivaldi: member -> (x, y, z)
+        self.desc = None
+
+    def depth(self):
+        return 0 if self.parent is None else 1 + self.parent.depth()
+
+
+def _sfx_zone(z, sfx):
+    """The template of a cluster leaf zone with every name suffixed (what route_driver does)."""
+    if not sfx:
+        return z
+    z = json.loads(json.dumps(z))
+
+    def s(x):
+        return None if x is None else x + sfx
+    z["name"] = s(z["name"])
+    mem = []
+    for m in z.get("members", []):
+        if m[0] == "z":
+            mem.append(["z", _sfx_zone(m[1], sfx)])
+        else:
+            mem.append([m[0], s(m[1])] + m[2:])
+    z["members"] = mem
+    for l in z.get("links", []):
+        l["name"] = s(l["name"])
+    for key in ("routes", "bypass"):
+        for r in z.get(key, []):
+            for f in ("src", "dst", "gw_src", "gw_dst"):
+                if r.get(f) is not None:
+                    r[f] = s(r[f])
+            r["links"] = [[s(a), b] for a, b in r["links"]]
+    if z.get("gateway") is not None:
+        z["gateway"] = s(z["gateway"])
+    if z.get("ap") is not None:
+        z["ap"] = s(z["ap"])
+    for p in z.get("peers", []):
+        p[0] = s(p[0])
+    return z
+
+
+class Platform:
+    def __init__(self, case):
+        self.zones = {}
+        self.np = {}             # netpoint name -> (type 'h'|'r'|'z', Z containing it)
+        self.link_owner = {}     # concrete link name -> zone name (declared links)
+        self.link_lat = {}
+        world = {"name": "_world_", "kind": "full",
+                 "members": [["z", z] for z in case.get("zones", [])] + list(case.get("members", [])),
+                 "links": case.get("links", []), "routes": case.get("routes", []), "bypass": case.get("bypass", [])}
+        self.root = self._add(world, None)
+
+    def _add(self, d, parent):
+        z = Z(d["name"], d.get("kind", "full"), parent)
+        z.desc = d
+        self.zones[z.name] = z
+        if z.kind in ("torus", "fattree", "dragonfly"):
+            t = {k: d[k] for k in ("kind", "dims", "ft", "df", "policy", "loopback", "limiter") if k in d}
+            t["kind"] = z.kind
+            z.cluster = t
+            n = topo_leaves(t)
+            for i in range(n):
+                if d.get("leaf") is None:
+                    nm = "%s-%d" % (z.name, i)
+                    z.members.append(("h", nm))
+                    self.np[nm] = ("h", z)
+                    z.leaves.append(nm)
+                else:
+                    sub = self._add(_sfx_zone(d["leaf"], "-%d" % i), z)
+                    z.members.append(("z", sub.name))
+                    self.np[sub.name] = ("z", z)
+                    z.leaves.append(sub.name)
+            if d.get("gateway") is not None:
+                z.router = d["gateway"]
+                z.gateway = d["gateway"]
+                z.members.append(("r", z.router))
+                self.np[z.router] = ("r", z)
+            return z
+        for m in d.get("members", []):
+            if m[0] == "z":
+                sub = self._add(m[1], z)
+                z.members.append(("z", sub.name))
+                self.np[sub.name] = ("z", z)
+            else:
+                z.members.append((m[0], m[1]))
+                self.np[m[1]] = (m[0], z)
+                if len(m) > 2 and m[2] is not None:
+                    z.coords[m[1]] = tuple(float(x) for x in m[2].split(" "))
+        for l in d.get("links", []):
+            z.links[l["name"]] = (l.get("lat", 0.0), l.get("policy", 1))
+            for nm in ([l["name"] + "_UP", l["name"] + "_DOWN"] if l.get("policy", 1) == 2 else [l["name"]]):
+                self.link_owner[nm] = z.name
+                self.link_lat[nm] = l.get("lat", 0.0)
+        for p in d.get("peers", []):
+            for nm in ("link_%s_UP" % p[0], "link_%s_DOWN" % p[0]):
+                self.link_owner[nm] = z.name
+                self.link_lat[nm] = 0.0
+        z.routes = d.get("routes", [])
+        z.bypass = d.get("bypass", [])
+        z.gateway = d.get("gateway")
+        z.ap = d.get("ap")
+        if z.gateway is None:
+            hosts = [m for m in z.members if m[0] == "h"]
+            if len(hosts) == 1:
+                z.gateway = hosts[0][1]      # documented in NetZoneImpl::seal: a single host is its zone's default gateway
+            elif not hosts and len(z.members) == 1 and z.members[0][0] == "r":
+                z.gateway = z.members[0][1]
+        return z
+
+    # ---- helpers
+    def zone_of(self, name):
+        return self.np[name][1]
+
+    def path(self, name):
+        """zones from the root down to the zone containing netpoint `name`"""
+        res = []
+        z = self.zone_of(name)
+        while z is not None:
+            res.append(z)
+            z = z.parent
+        return list(reversed(res))
+
+    def conc(self, z, ls, back=False):
+        seq = list(reversed(ls)) if back else ls
+        res = []
+        for nm, di in seq:
+            pol = self._policy(nm)
+            res.append(concrete(nm, di, pol, back=back))
+        return res
+
+    def _policy(self, nm):
+        for z in self.zones.values():
+            if nm in z.links:
+                return z.links[nm][1]
+        return 1
+
+    def hosts(self):
+        return [n for n, (t, _) in self.np.items() if t == "h"]
+
+    # ---- local routes.  Each returns (segments, gw_src, gw_dst, extra latency); a segment is
+    #      ("exact", [links]) | ("sp", zone name, a, b) | ("cluster", zone name, leaf a, leaf b) | ("sub", Expected)
+    def local(self, z, a, b, ctx):
+        k = z.kind
+        if k == "full":
+            return self._full(z, a, b)
+        if k in ("floyd", "dijkstra", "dijkstracache"):
+            return self._sp(z, a, b, ctx)
+        if k == "star":
+            return self._star(z, a, b)
+        if k == "vivaldi":
+            segs, ga, gb, _ = self._star(z, a, b)
+            ca, cb = z.coords[a], z.coords[b]
+            extra = (((ca[0] - cb[0]) ** 2 + (ca[1] - cb[1]) ** 2) ** 0.5 + abs(ca[2]) + abs(cb[2])) / 1000.0
+            return segs, ga, gb, extra
+        if k == "wifi":
+            wl = list(z.links.keys())[0]
+            ls = ([wl] if a != z.ap else []) + ([wl] if b != z.ap else [])
+            return [("exact", ls)], None, None, 0.0
+        if k == "empty":
+            return [("exact", [])], None, None, 0.0
+        if k in ("torus", "fattree", "dragonfly"):
+            if a == z.router or b == z.router:
+                ga = self._leafgw(z, a)
+                gb = self._leafgw(z, b)
+                return [("exact", [])], ga, gb, 0.0
+            return [("cluster", z.name, z.leaves.index(a), z.leaves.index(b))], self._leafgw(z, a), self._leafgw(z, b), 0.0
+        raise NoRoute("zone kind %s" % k)
+
+    def _leafgw(self, z, a):
+        if self.np[a][0] == "z":
+            g = self.zones[a].gateway
+            if g is None:
+                raise NoRoute("leaf zone %s has no default gateway" % a)
+            return g
+        return None
+
+    def _table(self, z):
+        tab = {}
+        for r in z.routes:
+            s, d = r["src"], r["dst"]
+            tab[(s, d)] = (self.conc(z, r["links"]), r.get("gw_src"), r.get("gw_dst"))
+            if r.get("sym") and s != d:
+                tab[(d, s)] = (self.conc(z, r["links"], back=True), r.get("gw_dst"), r.get("gw_src"))
+        return tab
+
+    def _full(self, z, a, b):
+        tab = self._table(z)
+        if (a, b) in tab:
+            ls, ga, gb = tab[(a, b)]
+            return [("exact", ls)], ga, gb, 0.0
+        if a == b and self.np[a][0] != "z" and not any(m[0] == "z" for m in z.members):
+            return [("exact", [LOOPBACK])], None, None, 0.0
+        raise NoRoute("no route declared from %s to %s in Full zone %s" % (a, b, z.name))
+
+    def _sp(self, z, a, b, ctx):
+        tab = self._table(z)
+        interior = any(m[0] == "z" for m in z.members)
+        if not interior:
+            if a == b:
+                if (a, a) in tab:
+                    return [("exact", tab[(a, a)][0])], None, None, 0.0
+                return [("exact", [LOOPBACK])], None, None, 0.0
+            if ctx.get("accumulating") and z.kind != "floyd":
+                ctx["flags"].add("dijkstra-local-route-appended-to-gathered-links")
+            return [("sp", z.name, a, b)], None, None, 0.0
+        # zones as vertices: the generator makes the zone graph a tree of symmetrical (or paired one-way) routes, so the
+        # chain is unique; consecutive zone routes whose gateways differ are joined by the route between the two gateways
+        adj = {}
+        for (s, d), v in tab.items():
+            adj.setdefault(s, []).append((d, v))
+        prev = {a: None}
+        todo = [a]
+        while todo:
+            v = todo.pop(0)
+            for (u, e) in adj.get(v, []):
+                if u not in prev:
+                    prev[u] = (v, e)
+                    todo.append(u)
+        if b not in prev or a == b:
+            raise NoRoute("no chain of zone routes from %s to %s in %s" % (a, b, z.name))
+        chain = []
+        cur = b
+        while prev[cur] is not None:
+            v, e = prev[cur]
+            chain.append(e)
+            cur = v
+        chain.reverse()
+        segs = []
+        for i, (ls, ga, gb) in enumerate(chain):
+            if i > 0 and chain[i - 1][2] != ga:
+                ctx["flags"].add("sp-interior-gateway-mismatch:" + z.kind)
+                # Floyd hands the list of links gathered so far to the recursive call (so does the bypass code)
+                ctx["accumulating"] = ctx.get("accumulating", 0) + 1
+                try:
+                    segs.append(("sub", self.resolve(chain[i - 1][2], ga, ctx)))
+                finally:
+                    ctx["accumulating"] -= 1
+            segs.append(("exact", ls))
+        if len(chain) > 1:
+            ctx["flags"].add("sp-interior-multi-hop:" + z.kind)
+        return segs, chain[0][1], chain[-1][2], 0.0
+
+    def star_members(self, z):
+        ms = {}
+        for r in z.routes:
+            s, d = r["src"], r["dst"]
+            if s is not None and s == d:
+                ms.setdefault(s, {})["loop"] = self.conc(z, r["links"])
+            elif s is not None:
+                m = ms.setdefault(s, {})
+                m["up"] = self.conc(z, r["links"])
+                m["gw"] = r.get("gw_src")
+                if r.get("sym"):
+                    m["down"] = self.conc(z, r["links"], back=True)
+            else:
+                m = ms.setdefault(d, {})
+                m["down"] = self.conc(z, r["links"])
+                m["gw"] = r.get("gw_dst")
+        for p in z.desc.get("peers", []):
+            ms.setdefault(p[0], {})["up"] = ["link_%s_UP" % p[0]]
+            ms[p[0]]["down"] = ["link_%s_DOWN" % p[0]]
+        return ms
+
+    def _star(self, z, a, b):
+        ms = self.star_members(z)
+        ma, mb = ms.get(a, {}), ms.get(b, {})
+        if a == b and ma.get("loop"):
+            seq = ma["loop"]
+        else:
+            if (ma and "up" not in ma) or (mb and "down" not in mb):
+                raise NoRoute("star member without up/down links")
+            seq = ma.get("up", []) + mb.get("down", [])
+        res = []
+        for l in seq:
+            if l not in res:
+                res.append(l)
+        return [("exact", res)], ma.get("gw"), mb.get("gw"), 0.0
+
+    # ---- the documented recursive algorithm
+    def resolve(self, src, dst, ctx, role=None):
+        """-> {"segs": [...], "extra": latency term}.  role="up": this is the recursion from an endpoint up to the source
+        gateway of a zone route (used only to classify a known defect)."""
+        ctx["depth"] = ctx.get("depth", 0) + 1
+        if ctx["depth"] > 40:
+            raise NoRoute("recursion too deep")
+        try:
+            ps, pd = self.path(src), self.path(dst)
+            i = 0
+            while i < len(ps) and i < len(pd) and ps[i] is pd[i]:
+                i += 1
+            ca = ps[i - 1]
+            byp = self._bypass(ca, src, dst, ps[i:], pd[i:], ctx)
+            if byp is not None:
+                return byp
+            if len(ps) == i and len(pd) == i:            # same zone
+                segs, _, _, extra = self.local(ca, src, dst, ctx)
+                return {"segs": segs, "extra": extra}
+            sa = ps[i].name if len(ps) > i else src
+            da = pd[i].name if len(pd) > i else dst
+            segs, ga, gb, extra = self.local(ca, sa, da, ctx)
+            if role == "up" and len(ps) > i and len(pd) == i:
+                segs = [("exact", s_[1], "up-mid") if s_[0] == "exact" else s_ for s_ in segs]
+                if any(s_[0] == "exact" and len(s_[1]) > 1 for s_ in segs):
+                    ctx["flags"].add("up-intermediate-segment-with-several-links")
+            out = []
+            if len(ps) > i:
+                if ga is None:
+                    raise NoRoute("no source gateway for %s in the route %s -> %s of %s" % (sa, sa, da, ca.name))
+                self._flag_gw(ps[i], src, ga, ctx)
+                if src != ga:
+                    out.append(("sub", self.resolve(src, ga, ctx, role="up")))
+            out.extend(segs)
+            if len(pd) > i:
+                if gb is None:
+                    raise NoRoute("no destination gateway for %s in the route %s -> %s of %s" % (da, sa, da, ca.name))
+                self._flag_gw(pd[i], dst, gb, ctx)
+                if dst != gb:
+                    out.append(("sub", self.resolve(gb, dst, ctx)))
+            if len(ps) > i + 1 or len(pd) > i + 1:
+                ctx["flags"].add("endpoint-two-levels-below-ancestor")
+            return {"segs": out, "extra": extra}
+        finally:
+            ctx["depth"] -= 1
+
+    def _flag_gw(self, child, endpoint, gw, ctx):
+        """Bookkeeping for the triage: is the gateway a direct member of the child zone it speaks for?"""
+        zg = self.zone_of(gw)
+        if zg is not child:
+            ctx["flags"].add("gateway-nested-in-sub-zone")
+            if zg is not self.zone_of(endpoint):
+                ctx["flags"].add("gateway-nested-in-other-sub-zone")
+
+    def _bypass(self, ca, src, dst, below_s, below_d, ctx):
+        """Bypass routes are looked up in the common ancestor: between the two netpoints when both are its direct members,
+        else between an ancestor zone of src and an ancestor zone of dst (the generator declares at most one that applies)."""
+        if not ca.bypass:
+            return None
+        if not below_s and not below_d:
+            for r in ca.bypass:
+                if r["src"] == src and r["dst"] == dst:
+                    ctx["flags"].add("bypass-route")
+                    if ctx.get("depth", 1) > 1:
+                        ctx["flags"].add("bypass-inside-recursion")
+                    return {"segs": [("exact", self.conc(ca, r["links"]))], "extra": 0.0}
+            return None
+        cand_s = [z.name for z in below_s]
+        cand_d = [z.name for z in below_d]
+        hits = [r for r in ca.bypass if r["src"] in cand_s and r["dst"] in cand_d]
+        if not hits:
+            return None
+        if len(hits) > 1:
+            raise NoRoute("several bypass routes apply (generator bug)")
+        r = hits[0]
+        ctx["flags"].add("bypass-zone-route")
+        if ctx.get("depth", 1) > 1:
+            ctx["flags"].add("bypass-inside-recursion")
+        out = []
+        if src == r["gw_src"] or dst == r["gw_dst"]:
+            ctx["flags"].add("bypass-endpoint-is-its-gateway")
+        if src != r["gw_src"]:
+            out.append(("sub", self.resolve(src, r["gw_src"], ctx)))
+        out.append(("exact", self.conc(ca, r["links"])))
+        if dst != r["gw_dst"]:
+            # the implementation hands the links gathered so far to this recursive call
+            ctx["accumulating"] = ctx.get("accumulating", 0) + 1
+            try:
+                out.append(("sub", self.resolve(r["gw_dst"], dst, ctx)))
+            finally:
+                ctx["accumulating"] -= 1
+        return {"segs": out, "extra": 0.0}
+
+
+def flatten(exp):
+    """Expected -> (flat list of non-sub segments, total extra latency)"""
+    segs, extra = [], exp["extra"]
+    for s in exp["segs"]:
+        if s[0] == "sub":
+            f, e = flatten(s[1])
+            segs.extend(f)
+            extra += e
+        else:
+            segs.append(s)
+    return segs, extra
+
+
+def describe_segs(segs):
+    res = []
+    for s in segs:
+        if s[0] == "exact":
+            res.append("[" + " ".join(s[1]) + "]")
+        elif s[0] == "sp":
+            res.append("<minimal chain %s->%s in %s>" % (s[2], s[3], s[1]))
+        else:
+            res.append("<%s route leaf %d->%d>" % (s[1], s[2], s[3]))
+    return " + ".join(res)
+
+
+def match_route(plat, owner, links, segs, zdump, reverse_up_mid=False):
+    """Consumes `links` segment by segment.  Raises Bad."""
+    pos = 0
+    for s in segs:
+        if s[0] == "exact":
+            k = len(s[1])
+            want = list(reversed(s[1])) if (reverse_up_mid and len(s) > 2 and s[2] == "up-mid") else s[1]
+            if links[pos:pos + k] != want:
+                raise Bad("route-mismatch", "at position %d expected %s, got %s" % (pos, s[1], links[pos:pos + k + 2]))
+            pos += k
+            continue
+        zname = s[1]
+        end = pos
+        while end < len(links) and owner.get(links[end]) == zname:
+            end += 1
+        run = links[pos:end]
+        z = plat.zones[zname]
+        if s[0] == "sp":
+            a, b = s[2], s[3]
+            tab = plat._table(z)
+            names = [m[1] for m in z.members]
+            idx = {n: i for i, n in enumerate(names)}
+            dedges = {(idx[x], idx[y]): v[0] for (x, y), v in tab.items() if x != y}
+            dist = all_dists(len(names), dedges)
+            hops = decode_chain(run, idx[a], idx[b], dedges)
+            if hops is None:
+                if z.kind != "floyd" and decode_chain(run, idx[a], idx[b], dedges, reverse_hops=True) is not None:
+                    raise Bad("dijkstra-hop-links-reversed", "segment %s of zone %s has its hops' links reversed" % (run, zname))
+                raise Bad("sp-segment-not-a-chain", "the links %s owned by %s are not a chain of its declared routes from %s to %s" % (run, zname, a, b))
+            if len(run) != dist[idx[a]][idx[b]]:
+                raise Bad("sp-segment-not-minimal", "the segment %s in %s from %s to %s has %d links, minimum %s" % (run, zname, a, b, len(run), dist[idx[a]][idx[b]]))
+        else:
+            t = z.cluster
+            a, b = s[2], s[3]
+            if t["kind"] == "torus":
+                w = check_torus(t, zname, a, b, run)
+            elif t["kind"] == "fattree":
+                w = check_fattree(t, zname, a, b, run)
+            else:
+                w = check_dragonfly(t, zname, a, b, run, list(zdump.get(zname, {}).get("links", {}).keys()))
+            check_limiters(t, w, a, b, run, t["kind"])
+        pos = end
+    if pos != len(links):
+        raise Bad("route-mismatch", "%d extra links at the end: %s" % (len(links) - pos, links[pos:]))
+
+
+# ---- generator of hierarchical platforms (valid by construction)
+
+class _Gen:
+    def __init__(self, draw, opts):
+        self.draw = draw
+        self.opts = opts
+        self.n = {"z": 0, "h": 0, "r": 0, "l": 0}
+        self.hosts = 0
+        self.fattrees = 0
+        self.zinfo = {}          # zone name -> (description, info) of every zone made by zone()
+        self.noself = set()      # hosts whose zone documents no route to itself (Empty: "no routing", WIFI)
+
+    def name(self, t):
+        self.n[t] += 1
+        return "%s%d" % (t, self.n[t])
+
+    def i(self, lo, hi):
+        return self.draw(st.integers(lo, hi))
+
+    def pick(self, xs):
+        return self.draw(st.sampled_from(list(xs)))
+
+    def links(self, zone, k, single=False):
+        """k fresh links declared in `zone` (a description dict) -> [[name, dir], ...]"""
+        res = []
+        for _ in range(k):
+            nm = self.name("l")
+            pol = 1 if single else self.pick([0, 1, 1, 2])
+            zone["links"].append({"name": nm, "lat": lat_of(self.pick([0, 1, 2, 3, 8, 64, 1024])), "policy": pol})
+            res.append([nm, self.pick([1, 2]) if pol == 2 else 0])
+        return res
+
+    # every generator returns (zone description, info) with info = {"direct": [gateway candidates that are direct members],
+    #                                                              "nested": [candidates inside sub-zones], "hosts": [...]}
+    def zone(self, depth, needs_gw=True):
+        d, info = self._zone(depth, needs_gw)
+        self.zinfo[d["name"]] = (d, info)
+        return d, info
+
+    def _zone(self, depth, needs_gw=True):
+        """needs_gw: the parent will declare a route to/from this zone, so it needs a gateway candidate"""
+        room = 40 - self.hosts
+        leaf_kinds = ["full", "full", "floyd", "dijkstra", "dijkstracache", "star", "star", "vivaldi", "wifi", "empty",
+                      "torus", "fattree", "dragonfly"]
+        interior_kinds = ["full", "full", "floyd", "dijkstra", "dijkstracache", "star", "star", "star", "cluster"]
+        if depth < 3 and room >= 6 and self.i(0, 9) < (6 if depth == 1 else 4):
+            k = self.pick(interior_kinds)
+            if k != "star" and needs_gw and not self.opts["nested_gw"]:
+                # a zone made of sub-zones only (Full/Floyd/Dijkstra with children, cluster of zones) can only be entered
+                # through a gateway nested in one of its sub-zones (the g5k.xml pattern): labelled class
+                k = "star"
+            if k == "cluster":
+                return self.cluster(depth, zone_leaves=True)
+            if k == "star":
+                return self.star(depth, interior=True)
+            return self.routed_interior(k, depth)
+        k = self.pick(leaf_kinds)
+        if k == "fattree" and self.fattrees >= 1:
+            k = "torus"
+        if k in ("torus", "fattree", "dragonfly"):
+            return self.cluster(depth, zone_leaves=False)
+        if k == "star":
+            return self.star(depth, interior=False)
+        if k == "vivaldi":
+            return self.vivaldi()
+        if k == "wifi":
+            return self.wifi()
+        if k == "empty":
+            z = {"name": self.name("z"), "kind": "empty", "members": [["h", self.name("h")]], "links": [], "routes": []}
+            self.hosts += 1
+            h = z["members"][0][1]
+            self.noself.add(h)
+            return z, {"direct": [h], "nested": [], "hosts": [h]}
+        return self.routed_leaf(k)
+
+    def members(self, lo, hi, routers=True):
+        n = max(lo, min(hi, 40 - self.hosts))
+        n = self.i(lo, max(lo, n))
+        mem = []
+        for j in range(n):
+            t = "h" if (j == 0 or not routers) else self.pick("hhr")
+            mem.append([t, self.name(t)])
+            if t == "h":
+                self.hosts += 1
+        return mem
+
+    def routed_leaf(self, kind):
+        lo = 2 if (kind in ("dijkstra", "dijkstracache") and self.opts["dijkstra_single_link"]) else 1
+        z = {"name": self.name("z"), "kind": kind, "members": self.members(lo, 4), "links": [], "routes": []}
+        names = [m[1] for m in z["members"]]
+        single = kind in ("dijkstra", "dijkstracache") and self.opts["dijkstra_single_link"]
+        if kind == "full":
+            for a in range(len(names)):
+                for b in range(a + 1, len(names)):
+                    if self.draw(st.booleans()):
+                        z["routes"].append({"src": names[a], "dst": names[b], "links": self.links(z, self.i(1, 3)), "sym": True})
+                    else:
+                        z["routes"].append({"src": names[a], "dst": names[b], "links": self.links(z, self.i(1, 3)), "sym": False})
+                        z["routes"].append({"src": names[b], "dst": names[a], "links": self.links(z, self.i(1, 3)), "sym": False})
+        else:
+            used = set()
+            for j in range(1, len(names)):
+                p = self.i(0, j - 1)
+                z["routes"].append({"src": names[j], "dst": names[p], "links": self.links(z, 1 if single else self.i(1, 2), single), "sym": True})
+                used.add((j, p))
+                used.add((p, j))
+            for _ in range(self.i(0, 3)):
+                a, b = self.i(0, len(names) - 1), self.i(0, len(names) - 1)
+                if a != b and (a, b) not in used and (b, a) not in used:
+                    used.add((a, b))
+                    used.add((b, a))
+                    z["routes"].append({"src": names[a], "dst": names[b], "links": self.links(z, 1 if single else self.i(1, 4), single), "sym": True})
+        for m in z["members"]:
+            if m[0] == "h" and self.i(0, 5) == 0:
+                z["routes"].append({"src": m[1], "dst": m[1], "links": self.links(z, 1, single), "sym": False})
+        z["routes"] = list(self.draw(st.permutations(z["routes"])))
+        if self.i(0, 2) == 0 and len(names) > 1:
+            z["gateway"] = self.pick(names)
+        return z, {"direct": names, "nested": [], "hosts": [m[1] for m in z["members"] if m[0] == "h"]}
+
+    def gw(self, info):
+        """a gateway for a child zone: a direct member, or (labelled class) one nested in a sub-zone"""
+        if info["nested"] and (not info["direct"] or (self.opts["nested_gw"] and self.i(0, 1) == 0)):
+            return self.pick(info["nested"])
+        return self.pick(info["direct"])
+
+    def routed_interior(self, kind, depth):
+        z = {"name": self.name("z"), "kind": kind, "members": [], "links": [], "routes": []}
+        subs = []
+        for _ in range(self.i(2, 3)):
+            d, info = self.zone(depth + 1)
+            z["members"].append(["z", d])
+            subs.append((d["name"], info))
+        single = kind in ("dijkstra", "dijkstracache") and self.opts["dijkstra_single_link"]
+
+        fixed = {}
+
+        def gw1(x):
+            # Dijkstra zones crash when a traversed sub-zone is entered and left through different gateways (known finding):
+            # while it is open every sub-zone of a Dijkstra zone keeps one gateway
+            if kind in ("dijkstra", "dijkstracache") and self.opts["dijkstra_single_link"]:
+                if x[0] not in fixed:
+                    fixed[x[0]] = self.gw(x[1])
+                return fixed[x[0]]
+            return self.gw(x[1])
+
+        def zr(a, b, sym):
+            return {"src": a[0], "dst": b[0], "gw_src": gw1(a), "gw_dst": gw1(b),
+                    "links": self.links(z, 1 if single else self.i(1, 3), single), "sym": sym}
+        if kind == "full":
+            for a in range(len(subs)):
+                for b in range(a + 1, len(subs)):
+                    if self.draw(st.booleans()):
+                        z["routes"].append(zr(subs[a], subs[b], True))
+                    else:
+                        z["routes"].append(zr(subs[a], subs[b], False))
+                        z["routes"].append(zr(subs[b], subs[a], False))
+        else:
+            for j in range(1, len(subs)):
+                p = self.i(0, j - 1)
+                if self.draw(st.booleans()) or kind != "floyd":
+                    z["routes"].append(zr(subs[j], subs[p], True))
+                else:
+                    z["routes"].append(zr(subs[j], subs[p], False))
+                    z["routes"].append(zr(subs[p], subs[j], False))
+        hosts = [h for _, i in subs for h in i["hosts"]]
+        nested = [g for _, i in subs for g in i["direct"] + i["nested"]]
+        return z, {"direct": [], "nested": nested, "hosts": hosts}
+
+    def star(self, depth, interior):
+        z = {"name": self.name("z"), "kind": "star", "members": [], "links": [], "routes": []}
+        direct, nested, hosts = [], [], []
+        bb = self.links(z, 1)[0] if self.draw(st.booleans()) else None
+        entries = []
+        if interior:
+            for _ in range(self.i(1, 3)):
+                d, info = self.zone(depth + 1)
+                z["members"].append(["z", d])
+                entries.append((d["name"], self.gw(info)))
+                nested += info["direct"] + info["nested"]
+                hosts += info["hosts"]
+        for m in self.members(0 if interior else 1, 2 if interior else 4):
+            z["members"].append(m)
+            entries.append((m[1], None))
+            direct.append(m[1])
+            if m[0] == "h":
+                hosts.append(m[1])
+        if self.i(0, 2) == 0 or not direct:
+            r = self.name("r")
+            z["members"].append(["r", r])
+            entries.append((r, None))
+            direct.append(r)
+            if self.draw(st.booleans()):
+                z["gateway"] = r
+        for (nm, g) in entries:
+            up = self.links(z, self.i(0, 2))
+            if bb and self.draw(st.booleans()):
+                up = up + [bb]
+            if self.draw(st.booleans()):
+                z["routes"].append({"src": nm, "dst": None, "gw_src": g, "gw_dst": None, "links": up, "sym": True})
+            else:
+                down = self.links(z, self.i(0, 2))
+                if bb and self.draw(st.booleans()):
+                    down = [bb] + down
+                z["routes"].append({"src": nm, "dst": None, "gw_src": g, "gw_dst": None, "links": up, "sym": False})
+                z["routes"].append({"src": None, "dst": nm, "gw_src": None, "gw_dst": g, "links": down, "sym": False})
+            if g is None and self.i(0, 4) == 0:
+                z["routes"].append({"src": nm, "dst": nm, "links": self.links(z, self.i(1, 2)), "sym": False})
+        return z, {"direct": direct, "nested": nested, "hosts": hosts}
+
+    def vivaldi(self):
+        z = {"name": self.name("z"), "kind": "vivaldi", "members": [], "links": [], "routes": [], "peers": []}
+        names = []
+        for m in self.members(1, 3, routers=False):
+            c = "%d %d %d" % (self.i(-50, 50), self.i(-50, 50), self.i(0, 5))
+            z["members"].append([m[0], m[1], c])
+            z["peers"].append([m[1], 1e8, 1e8])
+            names.append(m[1])
+        return z, {"direct": names, "nested": [], "hosts": names}
+
+    def wifi(self):
+        z = {"name": self.name("z"), "kind": "wifi", "members": self.members(1, 3, routers=False), "links": [], "routes": []}
+        names = [m[1] for m in z["members"]]
+        if self.draw(st.booleans()):
+            ap = self.name("r")
+            z["members"].append(["r", ap])
+        else:
+            ap = names[0]
+        z["ap"] = ap
+        z["gateway"] = ap
+        self.noself.update(names)
+        nm = self.name("l")
+        z["links"].append({"name": nm, "lat": 0.0, "policy": 1})
+        return z, {"direct": [ap], "nested": [], "hosts": names}
+
+    def cluster(self, depth, zone_leaves):
+        kind = self.pick(["torus", "fattree", "dragonfly"])
+        if kind == "fattree" and self.fattrees >= 1:
+            kind = "torus"
+        z = {"name": self.name("z"), "kind": kind, "lat": lat_of(self.pick([0, 1, 8])), "policy": self.pick([2, 2, 1, 0]),
+             "loopback": self.draw(st.booleans()), "lb_lat": lat_of(self.pick([0, 2])), "limiter": self.draw(st.booleans()), "leaf": None}
+        small = zone_leaves or (40 - self.hosts) < 12
+        if kind == "torus":
+            z["dims"] = self.pick([[2], [3], [2, 2]] if small else [[2], [3], [4], [5], [2, 2], [3, 2], [2, 3], [3, 3], [2, 2, 2], [4, 2]])
+        elif kind == "fattree":
+            self.fattrees += 1
+            z["ft"] = self.pick([[1, [2], [1], [1]], [1, [3], [2], [1]], [2, [2, 2], [1, 2], [1, 1]]] if small else
+                                [[1, [2], [1], [1]], [1, [4], [2], [2]], [2, [2, 2], [1, 2], [1, 2]], [2, [2, 3], [2, 2], [1, 1]], [2, [3, 2], [1, 2], [2, 1]]])
+        else:
+            cmax = 1 if self.opts["dragonfly_one_chassis"] else 2
+            z["df"] = self.pick([[[1, 1], [1, 1], [2, 1], 1], [[2, 1], [1, 1], [2, 1], 1], [[1, 1], [cmax, 1], [1, 1], 2]] if small else
+                                [[[2, 1], [1, 1], [2, 2], 2], [[2, 2], [cmax, 1], [2, 1], 1], [[1, 1], [cmax, 2], [3, 1], 1], [[3, 1], [1, 1], [3, 1], 1]])
+        n = topo_leaves(z)
+        if zone_leaves:
+            # every leaf is a copy of one small zone (names get the suffix "-<leaf index>")
+            self.depth_hint = depth
+            tk = self.pick(["star", "full1", "star"])
+            t = {"name": self.name("z"), "kind": "star" if tk == "star" else "full", "members": [], "links": [], "routes": []}
+            hs = []
+            for j in range(1 if tk == "full1" else self.i(1, 2)):
+                h = self.name("h")
+                hs.append(h)
+                t["members"].append(["h", h])
+                if tk == "star":
+                    t["routes"].append({"src": h, "dst": None, "gw_src": None, "gw_dst": None, "links": self.links(t, 1), "sym": True})
+            if tk == "star" and (len(hs) > 1 or self.draw(st.booleans())):
+                if self.draw(st.booleans()):
+                    r = self.name("r")
+                    t["members"].append(["r", r])
+                    t["gateway"] = r
+                else:
+                    t["gateway"] = hs[0]
+            z["leaf"] = t
+            self.hosts += n * len(hs)
+            leafnames = ["%s-%d" % (t["name"], i) for i in range(n)]
+            hosts = ["%s-%d" % (h, i) for i in range(n) for h in hs]
+            gws = ["%s-%d" % (t.get("gateway") or hs[0], i) for i in range(n)]
+            info = {"direct": [], "nested": gws, "hosts": hosts}
+        else:
+            self.hosts += n
+            hosts = ["%s-%d" % (z["name"], i) for i in range(n)]
+            info = {"direct": list(hosts), "nested": [], "hosts": hosts}
+        # no extra router: the XML loader creates none for torus / fat-tree / dragonfly clusters, and one created before
+        # sealing would shift the netpoint ids on which these zones compute coordinates
+        return z, info
+
+
+def _subzones(d):
+    return [m[1] for m in d.get("members", []) if m[0] == "z"]
+
+
+def _descend(g, d):
+    """all zones of the sub-tree of description d that zone() made (cluster leaf templates are not), d included"""
+    res = [d]
+    for c in _subzones(d):
+        res.extend(_descend(g, c))
+    return [x for x in res if x["name"] in g.zinfo]
+
+
+def _add_bypasses(g, draw, tops, world):
+    """At most one bypass route per zone, so that at most one applies to a pair (the lookup order is not documented).
+    - bypassRoute between two hosts of the same zone: the links replace the zone's own route;
+    - bypassZoneRoute, declared in the common ancestor, between a zone below one child and a zone below another child:
+      route(src, gw_src) + links + route(gw_dst, dst)."""
+    holders = [({"name": "_world_", "members": [["z", d] for d, _ in tops]}, world)]
+    for name, (d, info) in g.zinfo.items():
+        if d["kind"] in ("full", "floyd", "dijkstra", "dijkstracache", "star"):
+            holders.append((d, d))
+    for (d, store) in holders:
+        if draw(st.integers(0, 3)) != 0:
+            continue
+        subs = [c for c in _subzones(d) if c["name"] in g.zinfo]
+        hosts = [m[1] for m in d.get("members", []) if m[0] == "h"]
+        store.setdefault("bypass", [])
+        if len(subs) >= 2:
+            a, b = draw(st.permutations(subs))[:2]
+            x = draw(st.sampled_from(_descend(g, a)))
+            y = draw(st.sampled_from(_descend(g, b)))
+            ix, iy = g.zinfo[x["name"]][1], g.zinfo[y["name"]][1]
+            if (ix["direct"] or ix["nested"]) and (iy["direct"] or iy["nested"]):
+                store["bypass"].append({"src": x["name"], "dst": y["name"], "gw_src": g.gw(ix), "gw_dst": g.gw(iy),
+                                        "links": g.links(store, draw(st.integers(1, 3)))})
+        elif len(hosts) >= 2 and d["name"] != "_world_":
+            a, b = draw(st.permutations(hosts))[:2]
+            store["bypass"].append({"src": a, "dst": b, "gw_src": None, "gw_dst": None,
+                                    "links": g.links(store, draw(st.integers(1, 2)))})
+
+
+@st.composite
+def platforms(draw, nested_gw=False, dijkstra_single_link=True, dragonfly_one_chassis=True, bypass=True):
+    """nested_gw: probability (in tenths) that the platform may use gateways nested in sub-zones (g5k.xml style)"""
+    nested_gw = draw(st.integers(0, 9)) < int(nested_gw)
+    g = _Gen(draw, {"nested_gw": nested_gw, "dijkstra_single_link": dijkstra_single_link,
+                    "dragonfly_one_chassis": dragonfly_one_chassis})
+    world = {"links": [], "routes": [], "bypass": []}
+    tops = []
+    if g.i(0, 9) == 0:
+        tops.append(g.cluster(1, zone_leaves=True))     # a cluster of small zones alone in the platform
+    else:
+        ntop = g.i(1, 3)
+        for _ in range(ntop):
+            d, info = g.zone(1, needs_gw=ntop > 1)
+            tops.append((d, info))
+    for a in range(len(tops)):
+        for b in range(a + 1, len(tops)):
+            A, B = (tops[a][0]["name"], tops[a][1]), (tops[b][0]["name"], tops[b][1])
+
+            def zr(x, y, sym):
+                return {"src": x[0], "dst": y[0], "gw_src": g.gw(x[1]), "gw_dst": g.gw(y[1]), "links": g.links(world, g.i(1, 3)), "sym": sym}
+            if draw(st.booleans()):
+                world["routes"].append(zr(A, B, True))
+            else:
+                world["routes"].append(zr(A, B, False))
+                world["routes"].append(zr(B, A, False))
+    if bypass:
+        _add_bypasses(g, draw, tops, world)
+    hosts = [h for _, i in tops for h in i["hosts"]]
+    if len(hosts) <= 7:
+        pairs = [[a, b] for a in hosts for b in hosts if a != b] + [[a, a] for a in hosts[:2]]
+    else:
+        idx = st.integers(0, len(hosts) - 1)
+        pairs = [[hosts[a], hosts[b]] for a, b in draw(st.lists(st.tuples(idx, idx), min_size=10, max_size=50))]
+    pairs = [p for p in pairs if p[0] != p[1] or p[0] not in g.noself]
+    case = {"zones": [d for d, _ in tops], "links": world["links"], "routes": world["routes"], "bypass": world["bypass"],
+            "pairs": pairs, "dump": True}
+    return case
+
+
+# =============================================================================================
+# C26, second entry point: the same zones declared with the XML <cluster> tag (sg_platf.cpp): host names come from
+# prefix + radical + suffix (radicals need not be contiguous), limiter / loopback links are named by the loader, flat
+# clusters (Star zones with private links, optional backbone) only exist this way.
+# xml topo = {"kind": "xml", "topology": "FLAT"|"TORUS"|"FAT_TREE"|"DRAGONFLY", "dims"|"ft"|"df", "radical": [ints],
+#             "policy": 0|1|2, "lat_k", "bb": bool, "bb_policy": 0|1, "loopback": bool, "limiter": bool, "pairs": [...]}
+
+RE_XLIM = re.compile(r"^(.*)_link_(-?\d+)_limiter$")
+RE_XLB = re.compile(r"^(.*)_link_(-?\d+)_loopback$")
+
+
+def radical_str(rad):
+    out = []
+    i = 0
+    while i < len(rad):
+        j = i
+        while j + 1 < len(rad) and rad[j + 1] == rad[j] + 1:
+            j += 1
+        out.append("%d-%d" % (rad[i], rad[j]) if j > i else "%d" % rad[i])
+        i = j + 1
+    return ",".join(out)
+
+
+def xml_host(zname, t, i):
+    return "%s-%d.x" % (zname, t["radical"][i])
+
+
+def xml_cluster_tag(t, zname):
+    pol = {0: "FATPIPE", 1: "SHARED", 2: "SPLITDUPLEX"}[t.get("policy", 2)]
+    a = ['id="%s"' % zname, 'prefix="%s-"' % zname, 'suffix=".x"', 'radical="%s"' % radical_str(t["radical"]),
+         'speed="1Gf"', 'bw="125MBps"', 'lat="%ss"' % repr(lat_of(t.get("lat_k", 0))), 'sharing_policy="%s"' % pol]
+    topo = t["topology"]
+    if topo != "FLAT":
+        a.append('topology="%s"' % topo)
+        if topo == "TORUS":
+            a.append('topo_parameters="%s"' % ",".join(map(str, t["dims"])))
+        elif topo == "FAT_TREE":
+            h, m, w, p = t["ft"]
+            a.append('topo_parameters="%d;%s;%s;%s"' % (h, ",".join(map(str, m)), ",".join(map(str, w)), ",".join(map(str, p))))
+        else:
+            df = t["df"]
+            a.append('topo_parameters="%d,%d;%d,%d;%d,%d;%d"' % (df[0][0], df[0][1], df[1][0], df[1][1], df[2][0], df[2][1], df[3]))
+    elif t.get("bb"):
+        a.append('bb_bw="1GBps" bb_lat="%ss" bb_sharing_policy="%s"' % (repr(lat_of(t.get("bb_lat_k", 0))), "FATPIPE" if t.get("bb_policy") == 0 else "SHARED"))
+    if t.get("loopback"):
+        a.append('loopback_bw="100MBps" loopback_lat="%ss"' % repr(lat_of(t.get("lb_lat_k", 0))))
+    if t.get("limiter"):
+        a.append('limiter_link="200MBps"')
+    return "    <cluster " + " ".join(a) + "/>"
+
+
+def xml_platform(tags):
+    return ("<?xml version='1.0'?>\n<!DOCTYPE platform SYSTEM \"https://simgrid.org/simgrid.dtd\">\n<platform version=\"4.1\">\n"
+            "  <zone id=\"world\" routing=\"Full\">\n" + "\n".join(tags) + "\n  </zone>\n</platform>\n")
+
+
+def xml_as_api_topo(t):
+    """the description the structured-zone checkers use"""
+    k = {"TORUS": "torus", "FAT_TREE": "fattree", "DRAGONFLY": "dragonfly"}[t["topology"]]
+    r = {"kind": k, "policy": t.get("policy", 2), "loopback": t.get("loopback"), "limiter": t.get("limiter"), "xml": True,
+         "radical": t["radical"]}
+    for key in ("dims", "ft", "df"):
+        if key in t:
+            r[key] = t[key]
+    return r
+
+
+def xml_rename(t, zname, links):
+    """Rewrites the loader's limiter / loopback names into the ones our callbacks give (so that the same checkers apply)."""
+    k = t["kind"]
+    n = topo_leaves(t)
+    res = []
+    for l in links:
+        m = RE_XLIM.match(l)
+        if m and m.group(1) == zname:
+            i = int(m.group(2))
+            if k == "torus":
+                res.append("%s-lim%dc_%d" % (zname, i, i))
+            elif k == "fattree":
+                ft = FatTree(t["ft"])
+                if 0 <= i < n and i not in ft.by_id:
+                    res.append("%s-lim%dc_0_%d" % (zname, i, i))
+                elif i in ft.by_id and not (0 <= i < n):
+                    lvl, pos = ft.by_id[i][0]
+                    res.append("%s-lim%dc_%d_%d" % (zname, i & 0xFFFFFFFF, lvl, pos))
+                else:
+                    raise Bad("xml:ambiguous-limiter-name", "limiter %s may be a leaf or a switch" % l)
+            else:
+                df = Dragonfly(t["df"], [])
+                if 0 <= i < n:
+                    res.append("%s-lim%dc_%d_%d_%d_%d" % ((zname, i) + df.coords(i)))
+                else:
+                    r = 2 * n - 1 - i
+                    res.append("%s-lim%dc_%d_%d_%d_4294967295" % ((zname, i) + df.rcoords(r)))
+            continue
+        m = RE_XLB.match(l)
+        if m and m.group(1) == zname:
+            rad = int(m.group(2))
+            if rad not in t["radical"]:
+                raise Bad("xml:loopback-name", "loopback link %s does not belong to a host of the cluster" % l)
+            res.append("%s-lb%d" % (zname, t["radical"].index(rad)))
+            continue
+        res.append(l)
+    return res
+
+
+def xml_flat_expected(t, zname, s, d):
+    rs, rd = t["radical"][s], t["radical"][d]
+    sd = t.get("policy", 2) == 2
+
+    def up(r):
+        return (["%s_link_%d_limiter" % (zname, r)] if t.get("limiter") else []) + \
+               ["%s_link_%d%s" % (zname, r, "_UP" if sd else "")] + (["%s_backbone" % zname] if t.get("bb") else [])
+
+    def down(r):
+        return (["%s_backbone" % zname] if t.get("bb") else []) + ["%s_link_%d%s" % (zname, r, "_DOWN" if sd else "")] + \
+               (["%s_link_%d_limiter" % (zname, r)] if t.get("limiter") else [])
+    if s == d and t.get("loopback"):
+        return ["%s_link_%d_loopback" % (zname, rs)]
+    res = []
+    for l in up(rs) + down(rd):
+        if l not in res:
+            res.append(l)
+    return res
+
+
+@st.composite
+def xml_topos(draw):
+    topology = draw(st.sampled_from(["FLAT", "FLAT", "TORUS", "FAT_TREE", "DRAGONFLY"]))
+    t = {"kind": "xml", "topology": topology}
+    if topology == "FLAT":
+        n = draw(st.integers(1, 8))
+        t["bb"] = draw(st.booleans())
+        t["bb_policy"] = draw(st.sampled_from([0, 1]))
+        t["bb_lat_k"] = draw(st.sampled_from([0, 2]))
+    elif topology == "TORUS":
+        t["dims"] = draw(st.sampled_from([[2], [3], [5], [2, 2], [3, 2], [2, 3], [4, 3], [3, 3], [2, 2, 2], [3, 2, 2], [4, 4]]))
+        n = prod(t["dims"])
+    elif topology == "FAT_TREE":
+        t["ft"] = draw(st.sampled_from([[1, [2], [1], [1]], [1, [4], [2], [2]], [2, [2, 2], [1, 2], [1, 2]], [2, [4, 4], [1, 2], [1, 2]],
+                                        [2, [2, 3], [2, 2], [1, 1]], [2, [3, 2], [1, 2], [2, 1]], [3, [2, 2, 2], [1, 2, 2], [1, 1, 2]]]))
+        n = prod(t["ft"][1])
+    else:
+        B = draw(st.integers(1, 3))
+        t["df"] = [[draw(st.integers(1, B)), draw(st.integers(1, 3))], [draw(st.integers(1, 3)), draw(st.integers(1, 3))],
+                   [B, draw(st.integers(1, 3))], draw(st.integers(1, 3))]
+        n = topo_leaves({"kind": "dragonfly", "df": t["df"]})
+    # radicals: n increasing integers, contiguous or with gaps
+    if draw(st.booleans()):
+        start = draw(st.sampled_from([0, 0, 1, 10]))
+        t["radical"] = list(range(start, start + n))
+    else:
+        gaps = draw(st.lists(st.sampled_from([1, 1, 1, 2, 3, 10]), min_size=n, max_size=n))
+        cur = draw(st.sampled_from([0, 1, 5])) - gaps[0]
+        rad = []
+        for g_ in gaps:
+            cur += g_
+            rad.append(cur)
+        t["radical"] = rad
+    t["policy"] = draw(st.sampled_from([2, 2, 1, 0]))
+    t["lat_k"] = draw(st.sampled_from([0, 1, 3]))
+    t["loopback"] = draw(st.booleans())
+    t["lb_lat_k"] = draw(st.sampled_from([1, 2]))       # the loader only creates loopback links whose bw or latency is > 0
+    t["limiter"] = draw(st.booleans())
+    if n <= 9:
+        pairs = [[a, b] for a in range(n) for b in range(n)]
+    else:
+        pairs = draw(st.lists(st.tuples(st.integers(0, n - 1), st.integers(0, n - 1)).map(list), min_size=10, max_size=90))
+    t["pairs"] = pairs
+    return t
